@@ -27,29 +27,30 @@ full timestamp. No hypothesis on timestamps: they may go backwards, repeat, be i
 `DateTimeMin`, occur several times in a message or be of any type and size (`MsgOK` is typing only: counts
 and sizes fit a byte, base types are valid, data are bytes). -/
 theorem C01_wire_records (tsKnown : Nat → Bool) (o : Opts) (ho : OptsOK o) (ms : List WMsg)
-    (hok : ∀ m ∈ ms, MsgOK m) (tail : Bytes) :
+    (hok : ∀ m ∈ ms, MsgOK m) (hdesc : msgsDescOK [] ms = true) (tail : Bytes) :
     ∃ items, decodeRecords tsKnown ((encodeMsgs o (freshEnc o) ms).length + tail.length) DecState.fresh
         (encodeMsgs o (freshEnc o) ms).length (encodeMsgs o (freshEnc o) ms ++ tail) = (items, .ok tail) ∧
       AllMatch (RecMatches o.arch) ms (dataOf items) :=
   encodeMsgs_roundtrip tsKnown o ho.arch ms (freshEnc o) DecState.fresh hok
     (DefInv.fresh o.arch o.lruCap ho.capPos ho.cap16 _) ho.cap4
-    (fun _ => Or.inl rfl) tail _ (by omega)
+    (fun _ => Or.inl rfl) hdesc tail _ (by omega)
 
 /-- ONE FIT SEQUENCE (header, records, CRC), with or without checksum verification: `Decode` succeeds,
 consumes exactly the sequence, returns the header the encoder wrote (size, versions, data size = exact
 number of record bytes), the CRC, and matching messages. -/
 theorem C01_wire_sequence (tsKnown : Nat → Bool) (checksum : Bool) (o : Opts) (ho : OptsOK o) (h : Hdr)
-    (ms : List WMsg) (hf : FitOK o h ms) (tail : Bytes) :
+    (ms : List WMsg) (hf : FitOK o h ms) (hdesc : msgsDescOK [] ms = true) (tail : Bytes) :
     ∃ f, decodeFit tsKnown checksum (encodeFit o h ms ++ tail) = (f.items, .ok (f, tail)) ∧ FitMatches o (h, ms) f :=
-  decodeFit_encodeFit tsKnown checksum o ho h ms hf tail
+  decodeFit_encodeFit tsKnown checksum o ho h ms hf hdesc tail
 
 /-- CHAINED FILES: the `for dec.Next() { dec.Decode() }` loop over the bytes of any chain returns exactly one
 matching sequence per encoded sequence, in order, and ends without error. -/
 theorem C01_wire_chain (tsKnown : Nat → Bool) (checksum : Bool) (o : Opts) (ho : OptsOK o)
-    (fits : List (Hdr × List WMsg)) (hne : fits ≠ []) (hall : ∀ f ∈ fits, FitOK o f.1 f.2) :
+    (fits : List (Hdr × List WMsg)) (hne : fits ≠ []) (hall : ∀ f ∈ fits, FitOK o f.1 f.2)
+    (hdesc : ∀ f ∈ fits, msgsDescOK [] f.2 = true) :
     ∃ evs, decodeStream tsKnown checksum (fits.length + 1) true (encodeChain o fits) = (evs, none) ∧
       AllMatch (FitMatches o) fits (seqsOf evs) :=
-  decodeStream_encodeChain tsKnown checksum o ho fits hall true (fun _ => hne) _ (by omega)
+  decodeStream_encodeChain tsKnown checksum o ho fits hall hdesc true (fun _ => hne) _ (by omega)
 
 /-! ### non-vacuity: a concrete chain with compressed timestamps, developer fields, big-endian, LRU of 2 -/
 
@@ -91,7 +92,7 @@ theorem kf_ok : ∀ m ∈ kfMsgs, MsgOK m := by
 example : ∃ items, decodeRecords (fun n => n == 20) ((encodeMsgs exOpts (freshEnc exOpts) kfMsgs).length + 0) DecState.fresh
       (encodeMsgs exOpts (freshEnc exOpts) kfMsgs).length (encodeMsgs exOpts (freshEnc exOpts) kfMsgs ++ []) = (items, .ok []) ∧
     AllMatch (RecMatches exOpts.arch) kfMsgs (dataOf items) :=
-  C01_wire_records (fun n => n == 20) exOpts exOpts_ok kfMsgs kf_ok []
+  C01_wire_records (fun n => n == 20) exOpts exOpts_ok kfMsgs kf_ok (by decide) []
 
 /-- …the third message (t+5, 15 s before the last timestamp the decoder saw) is written with its full timestamp:
 the records come back as t (full), t+20 (from the header), t+5 (full) — on the pinned tree the third one was
